@@ -426,6 +426,9 @@ class GraphBuilder(BuilderBase):
         if parent is None:
             self._constant_cache: dict[tuple[Any, ir.DataType | None], ir.Value] = {}
             self._functions: dict[ir.OperatorIdentifier, ir.Function] = {}
+            # All graphs built through this builder tree (root graph and subgraphs).
+            self._all_graphs: list[ir.Graph] = []
+        self._root._all_graphs.append(graph)
 
     def opset(self, domain: str, version: int = 1) -> OpBuilder:
         """Create an OpBuilder bound to the given domain and version."""
@@ -486,8 +489,16 @@ class GraphBuilder(BuilderBase):
         """
         return self._get_or_create_constant(value, dtype)
 
+    def _node_count(self) -> int:
+        """Number of nodes in the root graph and all subgraphs built so far.
+
+        Used to generate value and node names that are unique across the main
+        graph and its subgraphs (ONNX requires SSA names across nested scopes).
+        """
+        return sum(g.num_nodes() for g in self._root._all_graphs)
+
     def _generate_node_name(self, op_type: str) -> str:
-        count = self.graph.num_nodes()
+        count = self._node_count()
         return self._qualify_node_name(f"{op_type}_node_{count}")
 
     def _adapt_outputs(
@@ -495,7 +506,7 @@ class GraphBuilder(BuilderBase):
     ) -> Sequence[ir.Value]:
         """Pre-create named output ir.Value objects for the graph."""
         if isinstance(outputs, int):
-            count = self.graph.num_nodes()
+            count = self._node_count()
             if outputs < 0:
                 raise ValueError(f"Number of outputs must be non-negative, got {outputs}")
             if outputs == 1:
@@ -726,7 +737,7 @@ class GraphBuilder(BuilderBase):
         # Adapt inputs similarly to call_op: promote constants/tensors to ir.Value.
         adapted_args = [self._input_to_ir_value(arg) for arg in args]
 
-        count = self.graph.num_nodes()
+        count = self._node_count()
         node_name = self._qualify_node_name(f"{function.name}_node_{count}")
 
         node = ir.node(
@@ -782,7 +793,7 @@ class GraphBuilder(BuilderBase):
         if _prefix:
             self.push_module(_prefix)
 
-        count = self.graph.num_nodes()
+        count = self._node_count()
         node_name_prefix = self._qualify_node_name(f"{function.name}_node_{count}/")
         nodes, outputs = _inliner.instantiate(graph, args, kwargs, prefix=node_name_prefix)
 
